@@ -229,7 +229,16 @@ Definition ugood (p : uparams) (s : ustate) : bool :=
   && (negb (uintr s || usigerr s) || (uctx s && has_ctx p && negb (uintr s && usigerr s) && Bool.eqb (usigerr s) (sig_fails p)))
   && (match uh s with HSel1 | HDone => true | _ => uctx s end)
   (* reaped exactly when Wait has returned *)
-  && Bool.eqb (match upr s with PReaped => true | _ => false end) (negb (match uw s with WWait => true | _ => false end)).
+  && Bool.eqb (match upr s with PReaped => true | _ => false end) (negb (match uw s with WWait => true | _ => false end))
+  (* where the helper is tells what it has done: nil is sent after ErrProcessDone only, the final send
+     follows the Kill when killDelay > 0, the timer is not armed before the killDelay test *)
+  && (match uh s with
+      | HSendNil => match upr s with PReaped => true | _ => false end
+      | HSendErr => if kd_pos p then ukil s else negb (ukil s)
+      | HSel1 | HSig | HAfterSig => match utm s with TNone => negb (ukil s) | _ => false end
+      | HSel2 | HKill => negb (ukil s) && kd_pos p
+      | HDone => true
+      end).
 
 Definition all_params : list uparams :=
   flat_map (fun a => flat_map (fun b => flat_map (fun c => flat_map (fun d => map (fun e =>
